@@ -110,6 +110,17 @@ cb_select(struct chan *sel_chan, void *ptr)
 	return 0;
 }
 
+/** Called when a channel other than the select channel, on which the
+ * select function depends, changes its value */
+static int
+cb_reselect(struct chan *chan, void *ptr)
+{
+	UNUSED(chan);
+	struct mux *mux = ptr;
+
+	return cb_select(mux->select, mux);
+}
+
 /** Called when the input channel changes its value and is selected */
 static int
 cb_input(struct chan *in_chan, void *ptr)
@@ -225,6 +236,20 @@ mux_set_input(struct mux *mux, int64_t index, struct chan *chan)
 	/* Inputs disabled until selected */
 	input->cb = bay_add_cb(mux->bay, BAY_CB_DIRTY, chan, cb_input, input, 0);
 	if (input->cb == NULL) {
+		err("bay_add_cb failed");
+		return -1;
+	}
+
+	return 0;
+}
+
+/** Runs the select function again when the given channel changes. Needed
+ * when a custom select function reads other channels than the select
+ * channel. */
+int
+mux_add_reselect(struct mux *mux, struct chan *chan)
+{
+	if (bay_add_cb(mux->bay, BAY_CB_DIRTY, chan, cb_reselect, mux, 1) == NULL) {
 		err("bay_add_cb failed");
 		return -1;
 	}
